@@ -43,7 +43,7 @@ template <class G> struct C04F {
         const lat::XAtom& ya = xs[((j + 3) * xs.size()) / (nt + 3) % xs.size()];
         const lat::TAtom& ta = ts[(j * ts.size()) / nt];
         std::string key = xa.key + ";" + ta.key;
-        if (!R.args.replay.empty() && R.args.replay.find("/" + key) == std::string::npos) continue;
+        if (!R.want(key)) continue;
         G X = vf::make_elem<G>(xa.c), Y = vf::make_elem<G>(ya.c);
         T t = vf::make_tan<T>(ta.t);
         P v; for (int k = 0; k < G::Dim; ++k) v(k) = S(0.25 * (k + 1) * ((k % 2) ? -1 : 1));
